@@ -4,6 +4,11 @@ import PkVerif.Lemmas.RefProxy
 import PkVerif.Lemmas.RefOverlay
 import PkVerif.Lemmas.RefFiles
 import PkVerif.Lemmas.RefDiskPacked
+import PkVerif.Lemmas.RefNsK
+import PkVerif.Lemmas.RefMergeK
+import PkVerif.Lemmas.RefOverlayK
+import PkVerif.Lemmas.RefProxyK
+import PkVerif.Lemmas.RefLeavesK
 import PkVerif.Base.Order
 /-!
 # C01 – every storage backend behaves as a content-addressed map
@@ -152,6 +157,81 @@ theorem C01_diskpacked (max : Nat) (content : Bytes → Bytes) (ops : List Op)
     (hwk : ∀ op ∈ ops, op.WK content) (hk : ∀ op ∈ ops, Pk.DiskPacked.KeyOK op) :
     (Pk.DiskPacked.diskpackedImpl max).run (Pk.DiskPacked.diskpackedImpl max).init ops = RefMap.run [] ops :=
   Pk.DiskPacked.diskpacked_run_eq max content ops hwk hk
+
+/-! ### nestings over ALL modelled leaves: memory, localdisk/files, diskpacked -/
+
+/-- the cache of a proxycache: an evicting memory cache or a plain memory store -/
+inductive CacheCfg where
+  | memCache (max : Nat)
+  | mem
+
+/-- configuration trees whose leaves are memory, the file-per-blob store or the packed disk store -/
+inductive LCfg where
+  | mem
+  | files
+  | diskpacked (maxFileSize : Nat)
+  | ns (master : LCfg)
+  | proxy (origin : LCfg) (cache : CacheCfg) (max : Nat)
+  | overlay (lower upper : LCfg)
+  | shard2 (a b : LCfg)
+  | replica2 (a b : LCfg)
+  | cond2 (t e : LCfg)
+
+def CacheCfg.toCfg : CacheCfg → Cfg
+  | .memCache m => .memCache m
+  | .mem => .mem
+
+/-- the same tree as a `Cfg` (disk leaves are given by their layout models) -/
+def LCfg.toCfg (t : Pk.Ref.Tbl) : LCfg → Cfg
+  | .mem => .mem
+  | .files => .leaf (Pk.Files.filesImpl t)
+  | .diskpacked m => .leaf (Pk.DiskPacked.diskpackedImpl m)
+  | .ns m => .ns (m.toCfg t)
+  | .proxy o c max => .proxy (o.toCfg t) c.toCfg max
+  | .overlay l u => .overlay (l.toCfg t) (u.toCfg t)
+  | .shard2 a b => .shard2 (a.toCfg t) (b.toCfg t)
+  | .replica2 a b => .replica2 (a.toCfg t) (b.toCfg t)
+  | .cond2 a b => .cond2 (a.toCfg t) (b.toCfg t)
+
+def cacheCaches (content : Bytes → Bytes) (route isSchema : Bytes → Bool) :
+    (c : CacheCfg) → Caches content (interp route isSchema c.toCfg)
+  | .memCache m => memCacheCaches content m
+  | .mem => (memRefines content).toCaches
+
+/-- the refinement proof of a tree with disk leaves, for histories whose received keys are texts of
+supported-hash refs (`SupK t`): every combinator maps `RefinesK` proofs of its sub-stores to a
+`RefinesK` proof of itself -/
+def interpRefinesK (t : Pk.Ref.Tbl) (ht : Pk.Files.TblOK t) (content : Bytes → Bytes)
+    (route isSchema : Bytes → Bool) :
+    (c : LCfg) → RefinesK content (Pk.Files.SupK t) (interp route isSchema (c.toCfg t))
+  | .mem => (memRefines content).toK _
+  | .files => Pk.Files.filesRefinesK t ht content
+  | .diskpacked m =>
+    Pk.DiskPacked.diskpackedRefinesK m content (Pk.Files.SupK t) (fun _ h => Pk.Files.supK_keyForm ht h)
+  | .ns m => nsRefinesK (interpRefinesK t ht content route isSchema m)
+  | .proxy o c max =>
+    proxyRefinesK (interpRefinesK t ht content route isSchema o) (cacheCaches content route isSchema c) max
+  | .overlay l u =>
+    overlayRefinesK (interpRefinesK t ht content route isSchema l) (interpRefinesK t ht content route isSchema u)
+  | .shard2 a b =>
+    shard2RefinesK route (interpRefinesK t ht content route isSchema a) (interpRefinesK t ht content route isSchema b)
+  | .replica2 a b =>
+    replica2RefinesK (interpRefinesK t ht content route isSchema a) (interpRefinesK t ht content route isSchema b)
+  | .cond2 a b =>
+    cond2RefinesK isSchema (interpRefinesK t ht content route isSchema a) (interpRefinesK t ht content route isSchema b)
+
+/-- **every nesting of combinators over memory, localdisk and diskpacked leaves is observationally
+the reference map**: for every such tree (any depth, any maxFileSize, any cache size), every routing
+function and schema predicate, every finite well-keyed history whose received refs are texts of
+supported-hash refs (as regenerated from the source: sha1/sha224/sha256) is answered – receive, fetch,
+stat, enumerate with ANY cursor string and limit, remove – exactly as the reference map answers it.
+The leaves are the layout models (directory tree + pruned walk; pack bytes + index rows). -/
+theorem C01_all_nestings_with_disk_leaves (content : Bytes → Bytes) (route isSchema : Bytes → Bool)
+    (c : LCfg) (ops : List Op) (hops : ∀ op ∈ ops, op.WK content)
+    (hk : ∀ op ∈ ops, op.KOK (Pk.Files.SupK Pk.Ref.gtbl)) :
+    (interp route isSchema (c.toCfg Pk.Ref.gtbl)).run (interp route isSchema (c.toCfg Pk.Ref.gtbl)).init ops
+      = RefMap.run [] ops :=
+  (interpRefinesK Pk.Ref.gtbl Pk.Files.gtbl_ok content route isSchema c).run_init ops hops hk
 
 /-- a three-level nesting satisfies the hypotheses (non-vacuity) -/
 example : (Cfg.overlay (.shard2 .mem (.ns .mem)) (.proxy (.cond2 .mem .mem) (.memCache 100) 50)).WF = true := by decide
